@@ -296,6 +296,30 @@ def step (s : DrvState) (line : String) : DrvState × String :=
     | some a => (s, toString (SV.len a))
     | _ => (s, "bad-op")
   | ["node.plan"] => (s, nodePlan)
+  | ["node.registry", pr, nst] =>
+    match bool? pr, bool? nst with
+    | some pr, some nst =>
+      let reg := nodeRegistry pr nst
+      let names := (List.range reg.length).filterMap fun i =>
+        if flagNamed reg i then some s!"{i}:{nodeFlagNames.getD i "?"}" else none
+      (s, " ".intercalate ([svHex reg.target, toString reg.length] ++ names))
+    | _, _ => (s, "bad-op")
+  | "node.start" :: dep :: pr :: nst :: l1 :: fe :: ht :: ca :: cr :: behs =>
+    -- one start through `migrateIfNeeded`: deprecated fails?, --prune-mode, --new-state, L1 head p|m|u, the fetch
+    -- stores one?, --http, cancel tick, crash tick, behaviours (default: every Migrate returns (nil, nil))
+    let l1? : Option L1Head :=
+      if l1 == "p" then some .present else if l1 == "m" then some .missing else if l1 == "u" then some .unreadable else none
+    match bool? dep, bool? pr, bool? nst, l1?, bool? fe, bool? ht, ca.toNat?, cr.toNat?, behs.mapM parseBeh with
+    | some dep, some pr, some nst, some l1, some fe, some ht, some ca, some cr, some bl =>
+      let c : NodeCfg := ⟨⟨dep, pr, l1, fe, ht⟩, nst, ⟨behOf bl, ca, cr, 0, false, fun _ => false⟩⟩
+      let reg := c.start.reg
+      match nodeRun s.cfg s.disk c with
+      | (d', _, .deprecatedFailed) => (s, s!"depfail {showDisk d'}")
+      | (d', _, .l1HeadFailed) => (s, s!"l1fail {showDisk d'}")
+      | (d', _, .refused) => (s, s!"refused:{showOpenV reg (newRunnerV reg s.disk)} {showDisk d'}")
+      | (d', log, .ran r) =>
+        ({ s with disk := d' }, s!"{showResult r} {showDisk d'} calls={showCalls log} why={showWhy r (runStopIdx s.cfg reg c.env s.disk)}")
+    | _, _, _, _, _, _, _, _, _ => (s, "bad-op")
   | ["sv.string", a] =>
     match hexSV? a with
     | some a => (s, SV.toStr a)
